@@ -31,7 +31,42 @@ func (p *c08) Init(tier string, seed int64) {
 	p.nRand = p.pick(12000, 300000)
 }
 
-func (p *c08) N() int { return p.nEnum + p.nRand }
+func (p *c08) N() int { return p.nEnum + p.nRand + c08Rec }
+
+const c08Rec = 5 * 5
+
+// buildRec: re-entrant captures. A macro or a block rendered through block() that renders itself again
+// (terminating) inside its own captured output; each level writes before and after the inner call.
+func (p *c08) buildRec(j int) (*Program, string) {
+	depth := j % 5
+	kind := j / 5
+	ts := map[string]*gen.Template{}
+	var main []gen.Node
+	blockRec := func() []gen.Node {
+		pos := &gen.EBin{Op: ">", L: nm("n"), R: num(0)}
+		body := []gen.Node{tx("("), pr(nm("n")), &gen.NIf{Conds: []gen.Expr{pos}, Bodies: [][]gen.Node{{
+			&gen.NSet{Name: "n", X: &gen.EBin{Op: "-", L: nm("n"), R: num(1)}}, tx("-"), pr(&gen.EBlockFn{Name: str("rb")}), tx("+")}}}, tx(":"), pr(nm("n")), tx(")")}
+		return []gen.Node{&gen.NSet{Name: "n", X: num(depth)}, &gen.NBlock{Name: "rb", Body: body}}
+	}
+	switch kind {
+	case 0, 1, 2:
+		prog, _ := (&c11{}).buildRec(depth + 5*(kind%3)) // linear / two calls / mutual, defined in main
+		defs := prog.Templates["main"].Body
+		call := defs[len(defs)-2].(*gen.NPrint).X
+		main = append(main, defs[:len(defs)-3]...)
+		main = append(main, &gen.NSetCap{Name: "cap", Body: []gen.Node{tx("X"), pr(call), tx("Y")}}, tx("<"), pr(nm("cap")), tx("|"), pr(nm("cap")), tx(">"),
+			&gen.NFilter{Filters: []string{"b1", "b2"}, Body: []gen.Node{tx("F"), pr(call)}})
+	case 3:
+		main = append(main, tx("["))
+		main = append(main, blockRec()...)
+		main = append(main, tx("]"))
+	default:
+		main = append(main, blockRec()...)
+		main = append(main, &gen.NSet{Name: "n", X: num(depth)}, &gen.NSetCap{Name: "cap", Body: []gen.Node{tx("X"), pr(&gen.EBlockFn{Name: str("rb")}), tx("Y")}}, tx("<"), pr(nm("cap")), tx(">"))
+	}
+	ts["main"] = tpl("main", main...)
+	return &Program{Templates: ts, Main: "main", Ctx: map[string]interface{}{}}, fmt.Sprintf("reentrant/kind=%d/depth=%d", kind, depth)
+}
 
 type c08gen struct {
 	r       *rand.Rand
@@ -41,6 +76,7 @@ type c08gen struct {
 	paths   []string
 	inLoop  int
 	extends bool
+	usesInc bool
 	// forced nesting for the enumerated part: kinds[depth]
 	forced []int
 	cont   int
@@ -53,6 +89,19 @@ func (g *c08gen) leafNodes() []gen.Node {
 	var out []gen.Node
 	n := 1 + r.Intn(2)
 	for i := 0; i < n; i++ {
+		if len(g.forced) == 0 && r.Intn(12) == 0 {
+			// another template rendered right here, which captures on its own account: its captures must
+			// neither swallow nor leak into whatever capture is open at this point
+			g.seq++
+			if r.Intn(2) == 0 {
+				out = append(out, &gen.NInclude{Tpl: str("cinc")})
+			} else {
+				ob := &gen.NBlock{Name: "eb", Body: []gen.Node{tx(g.mark()), &gen.NSetCap{Name: "oc", Body: []gen.Node{tx(g.mark())}}, tx("<"), pr(nm("oc")), tx(">")}}
+				out = append(out, &gen.NEmbed{Tpl: str("cemb"), Blocks: []*gen.NBlock{ob}})
+			}
+			g.usesInc = true
+			continue
+		}
 		if r.Intn(2) == 0 {
 			out = append(out, tx(g.mark()))
 		} else {
@@ -236,10 +285,23 @@ func (p *c08) build(i int) (*Program, *c08gen) {
 		ts["main"] = tpl("main", body...)
 	}
 	ts["macs"] = tpl("macs", g.macros...)
+	if g.usesInc {
+		ts["cinc"] = tpl("cinc", tx("I1."), &gen.NSetCap{Name: "ic", Body: []gen.Node{tx("I2.")}}, tx("<"), pr(nm("ic")), tx(">"),
+			&gen.NFilter{Filters: []string{"b1"}, Body: []gen.Node{tx("I3.")}}, tx("I4."))
+		ts["cemb"] = tpl("cemb", tx("E1."), &gen.NSetCap{Name: "ec", Body: []gen.Node{tx("E2.")}}, &gen.NBlock{Name: "eb", Body: []gen.Node{tx("E3.")}},
+			tx("<"), pr(nm("ec")), tx(">"), &gen.NFilter{Filters: []string{"b3"}, Body: []gen.Node{tx("E4."), &gen.NBlock{Name: "eb2", Body: []gen.Node{tx("E5.")}}}}, tx("E6."))
+		g.paths = append(g.paths, "include/embed")
+	}
 	return &Program{Templates: ts, Main: "main", Ctx: map[string]interface{}{}}, g
 }
 
 func (p *c08) Describe(i int) interface{} {
+	if i >= p.nEnum+p.nRand {
+		prog, sig := p.buildRec(i - p.nEnum - p.nRand)
+		d := prog.describe()
+		d["case"] = sig
+		return d
+	}
 	prog, g := p.build(i)
 	d := prog.describe()
 	d["capture_paths"] = g.paths
@@ -247,6 +309,14 @@ func (p *c08) Describe(i int) interface{} {
 }
 
 func (p *c08) Run(i int) (res fw.Result) {
+	if i >= p.nEnum+p.nRand {
+		prog, sig := p.buildRec(i - p.nEnum - p.nRand)
+		if _, _, ok := modelCase(&res, "c08:"+sig, prog, gen.Canon{}, true); !ok {
+			res.Fail("harness", "c08:oor:"+sig, "case left the model's region", prog.describe())
+		}
+		res.UniqueNT = 1
+		return
+	}
 	prog, g := p.build(i)
 	sig := strings.Join(g.paths, ",")
 	lib, _, ok := modelCase(&res, fmt.Sprintf("c08:%d:%s", i, sig), prog, gen.Canon{}, true)
@@ -267,7 +337,7 @@ func (p *c08) Run(i int) (res fw.Result) {
 }
 
 func (p *c08) Rule() string {
-	return "cases: enumerated - every nesting of depth <=2 (quick) / <=3 (thorough) of the five capture kinds (set..endset, filter section with 1..3 bracket filters, macro call, block(), parent()) x 3 continuations (captured value printed 1..3 times); random - nestings to depth 5 with 1..2 captures per level (a quarter of the bodies consist of exactly one capturing construct with nothing around it, so sections are directly nested), captures inside loops (<=2 deep), captured values printed 0..3 times, assigned from block()/parent() and passed on as macro arguments, in extending and non-extending templates. Every text run and print carries a unique marker (T17. / P23.), so the oracle (reference model output plus the recorded filter-callback log) sees any byte that is misrouted, duplicated or lost. Non-trivial = nesting depth >= 2 or a capture inside a loop; distinct = multiset of capture paths."
+	return "cases: enumerated - every nesting of depth <=2 (quick) / <=3 (thorough) of the five capture kinds (set..endset, filter section with 1..3 bracket filters, macro call, block(), parent()) x 3 continuations (captured value printed 1..3 times); re-entrant captures - terminating recursive macros (linear, two inner calls, mutual) inside set-captures and filter sections and a block that renders itself through block(), depth 0..4; random - nestings to depth 5 (with includes and embeds of templates that capture on their own account dropped into any body, embed overrides capturing too) with 1..2 captures per level (a quarter of the bodies consist of exactly one capturing construct with nothing around it, so sections are directly nested), captures inside loops (<=2 deep), captured values printed 0..3 times, assigned from block()/parent() and passed on as macro arguments, in extending and non-extending templates. Every text run and print carries a unique marker (T17. / P23.), so the oracle (reference model output plus the recorded filter-callback log) sees any byte that is misrouted, duplicated or lost. Non-trivial = nesting depth >= 2 or a capture inside a loop; distinct = multiset of capture paths."
 }
 
 func (p *c08) Assumptions() []string {
